@@ -6,24 +6,150 @@
 // order) and clause label -- never by line number.
 package ristretto
 
+//@ import "github.com/dgraph-io/ristretto/v2/z"
+
 // ---------------------------------------------------------------- sketch.go (C18)
 
-//@ spec nib(r cmRow, n uint64) byte = (r[n/2] >> ((n & 1) * 4)) & 0x0f
+//@ spec opaque nib(r cmRow, n uint64) byte = (r[n/2] >> ((n & 1) * 4)) & 0x0f
 
 //@ func (r cmRow) get(n uint64) byte
+//@   reveal nib
 //@   requires n/2 < uint64(len(r))
 //@   ensures [C18] #value result == nib(r, n)
 //@   ensures [C18] #range result <= 15
 
 //@ func (r cmRow) increment(n uint64)
+//@   reveal nib
 //@   requires n/2 < uint64(len(r))
 //@   modifies r[*]
 //@   ensures [C18] #saturate nib(r, n) == ite(old(nib(r, n)) < 15, old(nib(r, n)) + 1, 15)
 //@   ensures [C18] #others forall m uint64 :: m/2 < uint64(len(r)) && m != n ==> nib(r, m) == old(nib(r, m))
 
 //@ func (r cmRow) reset()
+//@   reveal nib
 //@   modifies r[*]
 //@   loop 1 invariant -1 <= rangeindex && rangeindex <= len(r)
 //@   loop 1 invariant forall j int :: 0 <= j && j <= rangeindex && j < len(r) ==> r[j] == (old(r[j]) >> 1) & 0x77
 //@   loop 1 invariant forall j int :: rangeindex < j && j < len(r) ==> r[j] == old(r[j])
 //@   ensures [C18] #halve forall m uint64 :: m/2 < uint64(len(r)) ==> nib(r, m) == old(nib(r, m)) / 2
+
+//@ func (r cmRow) clear()
+//@   reveal nib
+//@   modifies r[*]
+//@   loop 1 invariant -1 <= rangeindex && rangeindex <= len(r)
+//@   loop 1 invariant forall j int :: 0 <= j && j <= rangeindex && j < len(r) ==> r[j] == 0
+//@   ensures [C18] #zero forall m uint64 :: m/2 < uint64(len(r)) ==> nib(r, m) == 0
+
+//@ func next2Power(x int64) int64
+//@   requires 1 <= x && x <= 1<<62
+//@   ensures [C18] #pow2 result > 0 && result&(result-1) == 0
+//@   ensures [C18] #least result >= x && result/2 < x
+
+// A sketch is well formed when every counter index below mask+1 falls inside each
+// row and the four rows do not share storage.
+//@ spec wfSketch(s *cmSketch) bool = s != nil && (forall i int :: 0 <= i && i < 4 ==> s.mask/2 < uint64(len(s.rows[i]))) && (forall i, j int :: 0 <= i && i < j && j < 4 ==> !gcSameArray(s.rows[i], s.rows[j]))
+//@ spec opaque cidxV(seed, mask, x uint64) uint64 = (x ^ seed) & mask
+//@ lemma [C18] cidxInRange(seed, mask, x uint64): cidxV(seed, mask, x) <= mask
+//@   reveal cidxV
+//@ spec cidx(s *cmSketch, i int, x uint64) uint64 = cidxV(s.seed[i], s.mask, x)
+//@ spec ctr(s *cmSketch, i int, x uint64) byte = nib(s.rows[i], cidx(s, i, x))
+//@ spec min2(a, b byte) byte = ite(b < a, b, a)
+//@ spec estUpTo(s *cmSketch, x uint64, k int) byte = ite(k < 0, 255, ite(k == 0, min2(255, ctr(s, 0, x)), ite(k == 1, min2(min2(255, ctr(s, 0, x)), ctr(s, 1, x)), ite(k == 2, min2(min2(min2(255, ctr(s, 0, x)), ctr(s, 1, x)), ctr(s, 2, x)), min2(min2(min2(min2(255, ctr(s, 0, x)), ctr(s, 1, x)), ctr(s, 2, x)), ctr(s, 3, x))))))
+//@ spec est(s *cmSketch, x uint64) byte = estUpTo(s, x, 3)
+//@ spec sat15(v byte) byte = ite(v < 15, v+1, 15)
+
+//@ func (s *cmSketch) Estimate(hashed uint64) int64
+//@   uses cidxInRange
+//@   reveal nib
+//@   requires wfSketch(s)
+//@   loop 1 invariant -1 <= rangeindex && rangeindex <= 3
+//@   loop 1 invariant min == estUpTo(s, hashed, rangeindex)
+//@   ensures [C18] #value result == int64(est(s, hashed))
+//@   ensures [C18] #range 0 <= result && result <= 15
+
+//@ func (s *cmSketch) Increment(hashed uint64)
+//@   uses cidxInRange
+//@   reveal nib, cidxV
+//@   requires wfSketch(s)
+//@   modifies s.rows[0][*], s.rows[1][*], s.rows[2][*], s.rows[3][*]
+//@   loop 1 invariant -1 <= rangeindex && rangeindex <= 3
+//@   loop 1 invariant forall i int, y uint64 :: 0 <= i && i <= rangeindex && i < 4 ==> ctr(s, i, y) == ite(cidx(s, i, y) == cidx(s, i, hashed), sat15(old(ctr(s, i, y))), old(ctr(s, i, y)))
+//@   loop 1 invariant forall i int, y uint64 :: rangeindex < i && i < 4 ==> ctr(s, i, y) == old(ctr(s, i, y))
+//@   ensures [C18] #rows forall i int, y uint64 :: 0 <= i && i < 4 ==> ctr(s, i, y) == ite(cidx(s, i, y) == cidx(s, i, hashed), sat15(old(ctr(s, i, y))), old(ctr(s, i, y)))
+//@   ensures [C18] #monotone forall y uint64 :: est(s, y) >= old(est(s, y))
+//@   ensures [C18] #self est(s, hashed) == sat15(old(est(s, hashed)))
+
+//@ func (s *cmSketch) Reset()
+//@   uses cidxInRange
+//@   reveal nib
+//@   requires wfSketch(s)
+//@   modifies s.rows[0][*], s.rows[1][*], s.rows[2][*], s.rows[3][*]
+//@   loop 1 invariant -1 <= rangeindex && rangeindex <= 3
+//@   loop 1 invariant forall i int, y uint64 :: 0 <= i && i <= rangeindex && i < 4 ==> ctr(s, i, y) == old(ctr(s, i, y))/2
+//@   loop 1 invariant forall i int, y uint64 :: rangeindex < i && i < 4 ==> ctr(s, i, y) == old(ctr(s, i, y))
+//@   ensures [C18] #halve forall i int, y uint64 :: 0 <= i && i < 4 ==> ctr(s, i, y) == old(ctr(s, i, y))/2
+
+//@ func (s *cmSketch) Clear()
+//@   uses cidxInRange
+//@   reveal nib
+//@   requires wfSketch(s)
+//@   modifies s.rows[0][*], s.rows[1][*], s.rows[2][*], s.rows[3][*]
+//@   loop 1 invariant -1 <= rangeindex && rangeindex <= 3
+//@   loop 1 invariant forall i int, y uint64 :: 0 <= i && i <= rangeindex && i < 4 ==> ctr(s, i, y) == 0
+//@   ensures [C18] #zero forall y uint64 :: est(s, y) == 0
+
+//@ func newCmSketch(numCounters int64) *cmSketch
+//@   uses cidxInRange
+//@   requires 2 <= numCounters && numCounters <= 1<<62
+//@   loop 1 invariant 0 <= i && i <= 4 && sketch != nil && sketch.mask == uint64(next2Power(numCounters)-1)
+//@   loop 1 invariant forall k int :: 0 <= k && k < i ==> sketch.mask/2 < uint64(len(sketch.rows[k])) && gcAllocated(sketch.rows[k]) && len(sketch.rows[k]) > 0
+//@   loop 1 invariant forall k, l int :: 0 <= k && k < l && l < i ==> !gcSameArray(sketch.rows[k], sketch.rows[l])
+//@   loop 1 invariant forall k int, y uint64 :: 0 <= k && k < i && y/2 < uint64(len(sketch.rows[k])) ==> nib(sketch.rows[k], y) == 0
+//@   reveal nib
+//@   ensures [C18] #wf wfSketch(result)
+//@   ensures [C18] #size result.mask+1 == uint64(next2Power(numCounters))
+//@   ensures [C18] #zero forall y uint64 :: est(result, y) == 0
+
+// ---------------------------------------------------------------- policy.go: tinyLFU (C18)
+
+//@ spec wfTiny(p *tinyLFU) bool = p != nil && wfSketch(p.freq) && z.GcWfBloom(p.door)
+//@ spec tinyEst(p *tinyLFU, x uint64) int64 = int64(est(p.freq, x)) + ite(z.GcHas(p.door, x), int64(1), int64(0))
+//@ spec min64(a, b int64) int64 = ite(b < a, b, a)
+
+//@ func (p *tinyLFU) Estimate(key uint64) int64
+//@   requires wfTiny(p)
+//@   ensures [C18] #value result == tinyEst(p, key)
+//@   ensures [C18] #range 0 <= result && result <= 16
+
+//@ func (p *tinyLFU) Increment(key uint64)
+//@   uses cidxInRange, GcPosInRange
+//@   reveal GcHasV
+//@   requires wfTiny(p)
+//@   modifies p.incrs, z.GcBloomBits(p.door)[*], p.door.ElemNum, p.freq.rows[0][*], p.freq.rows[1][*], p.freq.rows[2][*], p.freq.rows[3][*]
+//@   ensures [C18] #wf wfTiny(p)
+//@   ensures [C18] #count old(p.incrs)+1 < p.resetAt ==> p.incrs == old(p.incrs)+1
+//@   ensures [C18] #self old(p.incrs)+1 < p.resetAt ==> tinyEst(p, key) >= min64(old(tinyEst(p, key))+1, 16)
+//@   ensures [C18] #monotone old(p.incrs)+1 < p.resetAt ==> forall y uint64 :: tinyEst(p, y) >= old(tinyEst(p, y))
+//@   ensures [C18] #reset old(p.incrs)+1 >= p.resetAt ==> p.incrs == 0 && forall x uint64 :: x <= z.GcBloomSize(p.door) ==> !z.GcBit(p.door, x)
+
+//@ func (p *tinyLFU) clear()
+//@   requires wfTiny(p)
+//@   modifies p.incrs, z.GcBloomBits(p.door)[*], p.freq.rows[0][*], p.freq.rows[1][*], p.freq.rows[2][*], p.freq.rows[3][*]
+//@   ensures [C18] #wf wfTiny(p) && p.incrs == 0
+//@   ensures [C18] #zero (forall y uint64 :: est(p.freq, y) == 0) && forall x uint64 :: x <= z.GcBloomSize(p.door) ==> !z.GcBit(p.door, x)
+
+//@ func (p *tinyLFU) Push(keys []uint64)
+//@   requires wfTiny(p)
+//@   modifies p.incrs, z.GcBloomBits(p.door)[*], p.door.ElemNum, p.freq.rows[0][*], p.freq.rows[1][*], p.freq.rows[2][*], p.freq.rows[3][*]
+//@   loop 1 invariant wfTiny(p)
+//@   ensures [C18] #wf wfTiny(p)
+
+// The induction step behind "the estimate of a key is at least min(n, 15) after n
+// recorded accesses": with tinyLFU.Increment#self it gives the claim for n+1.
+//@ lemma [C18] underCountStep(e, e2, n int64): 0 <= n && n < 1<<62 && 0 <= e && e <= 16 && e >= min64(n, 15) && e2 >= min64(e+1, 16) ==> e2 >= min64(n+1, 15)
+
+//@ func newTinyLFU(numCounters int64) *tinyLFU
+//@   requires 2 <= numCounters && numCounters <= 1<<62 && z.GcMaskOK()
+//@   ensures [C18] #wf wfTiny(result) && result.incrs == 0 && result.resetAt == numCounters
+//@   ensures [C18] #size result.freq.mask+1 == uint64(next2Power(numCounters))
+//@   ensures [C18] #zero forall y uint64 :: est(result.freq, y) == 0
